@@ -643,4 +643,7 @@ def run(ctx):
     ctx.explanation = ('C08: the four readers are evaluated by the analyser on model files (token lines with symbolic numbers, data frames with explicit row order); the resulting '
                        'constructor calls and stored arrays are compared with what the writers of C07 put there: cell, counts, types, positions with image flags applied per atom id, '
                        'units re-applied, section offsets, refusals of incomplete files; writer and reader column tables are compared for every atom_style. Not decided: decimal parsing.')
-    ctx.run_rules([tables_agree, data_read, table_read, dump_read, poscar_read, poscar_roundtrip, api])
+    # what is loaded is what the writers wrote: the writer-side obligations that a round trip rests on (the header form follows the exact tilts, the column table the
+    # caller passes to both writer and reader is not altered by the writer) are decided here too
+    from . import c07
+    ctx.run_rules([tables_agree, data_read, table_read, dump_read, poscar_read, poscar_roundtrip, api, c07.data_file, c07.dump_file, c07.resolvers, lambda c: c07.returned_table(c, 'TABLE-READ')])
